@@ -234,4 +234,22 @@ def handleMode (toks : List String) : String :=
     | _, _ => "!bad-op"
   | _ => "!bad-op"
 
+/-- `rim plant <k>` (`plant-legacy`: the pre-fix code): the caller's message is cell 0, the configured preset messages are
+cells 1…k; the preset is applied, then the caller rewrites its message and everything it points to.
+→ `shared=<cells the caller's message points to that existed before>|changed=<preset cells that differ afterwards>` -/
+def handlePlant (toks : List String) (legacy : Bool) : String :=
+  match toks with
+  | [k] =>
+    match k.toNat? with
+    | some k =>
+      let h0 : PH Nat := { cells := fun x => ⟨x, []⟩, next := k + 1 }
+      let preset := (List.range k).map (· + 1)
+      let h1 := if legacy then plantLegacy h0 0 preset id else plant h0 0 preset id
+      let shared := ((h1.cells 0).subs.filter (· < k + 1)).length
+      let h2 := callerEdit h1 0 (· + 100)
+      let changed := (preset.filter fun r => (h2.cells r).body != (h0.cells r).body).length
+      s!"shared={shared}|changed={changed}"
+    | none => "!bad-op"
+  | _ => "!bad-op"
+
 end ScVerif.C07.Rim3
